@@ -28,7 +28,7 @@ def _chunk(tier: str, seeds: list[int]) -> dict:
     eng = _ENGINE
     agg = {
         "runs": 0, "steps": 0, "counters": Counter(), "nontrivial": set(), "violations": [],
-        "digests": {}, "samples": [], "sim_time": 0.0, "errors": [], "schedules": set(),
+        "digests": {}, "samples": [], "sim_time": 0.0, "errors": [], "schedules": set(), "extra_max": {},
     }
     for seed in seeds:
         try:
@@ -46,6 +46,9 @@ def _chunk(tier: str, seeds: list[int]) -> dict:
         agg["nontrivial"].update(hashlib.sha256(k.encode()).digest()[:8] for k in out["nontrivial"])
         agg["sim_time"] += out["sim_time"]
         agg["digests"][seed] = out["digest"]
+        for k, v in out.get("extra", {}).items():
+            if isinstance(v, (int, float)):
+                agg["extra_max"][k] = max(agg["extra_max"].get(k, 0.0), float(v))
         if "schedule" in case:
             agg["schedules"].add(hashlib.sha256(json.dumps(case["schedule"]).encode()).digest()[:8])
         if len(agg["samples"]) < 1:
@@ -162,9 +165,11 @@ def main(eng, argv: list[str]) -> int:
     max_runs = args.runs or (eng.quick_runs if tier == "quick" else 10**9)
 
     total = {"runs": 0, "steps": 0, "counters": Counter(), "nontrivial": set(), "violations": [],
-             "digests": {}, "samples": [], "sim_time": 0.0, "errors": [], "schedules": set()}
+             "digests": {}, "samples": [], "sim_time": 0.0, "errors": [], "schedules": set(), "extra_max": {}}
 
     def merge(a):
+        for k, v in a.get("extra_max", {}).items():
+            total["extra_max"][k] = max(total["extra_max"].get(k, 0.0), v)
         total["runs"] += a["runs"]
         total["steps"] += a["steps"]
         total["counters"].update(a["counters"])
@@ -335,6 +340,7 @@ def main(eng, argv: list[str]) -> int:
         "probes": dict(sorted(probes.items())),
         "counters": dict(sorted(other.items())),
         "determinism": det,
+        "largest_observed_discrepancies": {k: float("%.3g" % v) for k, v in sorted(total["extra_max"].items())},
         "components_real_code": eng.components_real,
         "components_stubbed": eng.components_stub,
         "violation_signatures": reported,
